@@ -309,6 +309,119 @@ def extract_panic_sites(repo, notes):
     return sites
 
 
+def fn_block(src, name):
+    m = re.search(r"\bfn\s+" + name + r"\b", src)
+    if not m:
+        return None
+    # skip the signature: first '{' that is followed by a statement, i.e. after the where-clause / return type
+    i = src.find("{", m.end())
+    # generic bounds like `A: ToSocketAddrs` contain no braces, so this is the body
+    return src[i:match_brace(src, i)]
+
+
+def builder_calls(text, ctor):
+    """`.with_x(arg)` calls chained directly on `<ctor>(...)`"""
+    i = text.find(ctor + "(")
+    if i < 0:
+        return None
+    j = i + len(ctor)
+    depth = 0
+    while j < len(text):
+        if text[j] == "(":
+            depth += 1
+        elif text[j] == ")":
+            depth -= 1
+            if depth == 0:
+                break
+        j += 1
+    rest = text[j + 1:]
+    calls = []
+    while True:
+        m = re.match(r"\s*\.\s*(with_\w+)\s*\(", rest)
+        if not m:
+            break
+        k = m.end() - 1
+        depth = 0
+        e = k
+        while e < len(rest):
+            if rest[e] == "(":
+                depth += 1
+            elif rest[e] == ")":
+                depth -= 1
+                if depth == 0:
+                    break
+            e += 1
+        calls.append((m.group(1), re.sub(r"\s+", "", rest[k + 1:e])))
+        rest = rest[e + 1:]
+    return calls
+
+
+def extract_listener(repo, notes):
+    src = read(repo, "passage-protocol/src/listener.rs")
+    lib = read(repo, "src/lib.rs")
+    if src is None or lib is None:
+        notes.append("extraction: unparsed listener (unreadable)")
+        return None
+    src = strip_rust_comments(src)
+    lib = strip_rust_comments(lib)
+    listen = fn_block(src, "listen")
+    handle = fn_block(src, "handle")
+    if listen is None or handle is None:
+        notes.append("extraction: unparsed listener (fn listen/handle not found)")
+        return None
+    f = {}
+    # accept loop
+    sel = re.search(r"select!\s*\{", listen)
+    if not sel:
+        notes.append("extraction: unparsed listener (no select! in listen)")
+        return None
+    selblk = listen[sel.end() - 1:match_brace(listen, sel.end() - 1)]
+    first = selblk.find("stop.cancelled()")
+    acc = selblk.find("listener.accept()")
+    f["stopBiased"] = bool(re.search(r"\{\s*biased\s*;", selblk)) and 0 <= first < acc
+    f["closesTracker"] = "tracker.close()" in listen[sel.end():]
+    f["waitsTracker"] = bool(re.search(r"tracker\.wait\(\)\s*\.await", listen[sel.end():]))
+    handle_awaited = bool(re.search(r"self\.handle\([^)]*\)\s*\.await", listen))
+    spawn = handle.find("tracker.spawn(")
+    if spawn < 0:
+        notes.append("extraction: unparsed listener (no tracker.spawn in handle)")
+        return None
+    before, after = handle[:spawn], handle[spawn:]
+    # awaits on the client before the per-connection task exists (classification table: the PROXY
+    # header read is client input; shutdown of the socket is local i/o)
+    hdr_before = "create_from_tokio" in before and ".await" in before[before.find("create_from_tokio"):]
+    f["clientInputBeforeSpawn"] = handle_awaited and hdr_before
+    hdr = handle.find("create_from_tokio")
+    f["headerUnderDeadline"] = hdr >= 0 and bool(re.search(r"timeout(_at)?\s*\(\s*[^;]*create_from_tokio", handle))
+    f["listenUnderDeadline"] = bool(re.search(r"timeout(_at)?\s*\(\s*\w+\s*,\s*connection\.listen\(\)\s*\)", after))
+    one_deadline = bool(re.search(r"timeout_at\s*\(\s*deadline\s*,\s*connection\.listen", after)) and (hdr < 0 or bool(re.search(r"timeout_at\s*\(\s*deadline\s*,\s*ProxiedStream::create_from_tokio", handle)) or "create_from_tokio" not in handle)
+    f["singleDeadlineFromAccept"] = one_deadline and bool(re.search(r"deadline\s*=\s*connection_start\s*\+\s*connection_timeout", handle))
+    tl = after.find("connection.listen()")
+    f["shutdownAfterListen"] = tl >= 0 and bool(re.search(r"stream\.shutdown\(\)\s*\.await", after[tl:]))
+    f["limiterBeforeConnection"] = 0 <= handle.find(".enqueue(") < handle.find("Connection::new(")
+    f["limiterOnEffectiveAddr"] = bool(re.search(r"\.enqueue\(\s*client_addr\.ip\(\)\s*\)", handle))
+    calls = builder_calls(handle, "Connection::new")
+    lcalls = builder_calls(lib, "Listener::new")
+    if calls is None or lcalls is None:
+        notes.append("extraction: unparsed listener (builder chains)")
+        return None
+    want_conn = {"with_client_address": "client_addr", "with_auth_secret": "auth_secret", "with_max_packet_length": "max_packet_length", "with_auth_cookie_expiry": "auth_cookie_expiry"}
+    cd = dict(calls)
+    f["connAddr"] = cd.get("with_client_address") == "client_addr"
+    f["connSecret"] = cd.get("with_auth_secret") == "auth_secret" and bool(re.search(r"let\s+auth_secret\s*=\s*self\.auth_secret\.clone\(\)", handle))
+    f["connMaxLen"] = cd.get("with_max_packet_length") == "max_packet_length" and bool(re.search(r"let\s+max_packet_length\s*=\s*self\.max_packet_length", handle))
+    f["connExpiry"] = cd.get("with_auth_cookie_expiry") == "auth_cookie_expiry" and bool(re.search(r"let\s+auth_cookie_expiry\s*=\s*self\.auth_cookie_expiry", handle))
+    f["connTimeout"] = bool(re.search(r"let\s+connection_timeout\s*=\s*self\.connection_timeout", handle))
+    ld = dict(lcalls)
+    f["cfgSecret"] = ld.get("with_auth_secret") == "auth_secret" and "config.auth_secret.clone().map(String::into_bytes)" in re.sub(r"\s+", "", lib)
+    f["cfgTimeout"] = ld.get("with_connection_timeout") == "timeout_duration" and "Duration::from_secs(config.timeout)" in re.sub(r"\s+", "", lib)
+    f["cfgMaxLen"] = ld.get("with_max_packet_length") in ("config.max_packet_lengthasi32", "i32::try_from(config.max_packet_length).unwrap_or(i32::MAX)")
+    f["cfgExpiry"] = ld.get("with_auth_cookie_expiry") == "config.auth_cookie_expiry"
+    f["cfgLimiter"] = ld.get("with_rate_limiter") == "rate_limiter"
+    f["cfgProxy"] = "with_proxy_protocol" in ld
+    return f, calls, lcalls
+
+
 def main():
     repo, out = sys.argv[1], sys.argv[2]
     os.makedirs(out, exist_ok=True)
@@ -370,6 +483,24 @@ def main():
     body += "\nend Passage.Extracted\n"
     write_if_changed(os.path.join(out, "PanicSites.lean"), body)
     print(f"extracted panic sites: {None if sites is None else len(sites)}")
+    lf = extract_listener(repo, notes)
+    body = "/- GENERATED by extract/extract.py from /repo on every run — do not edit. -/\nnamespace Passage.Extracted\n\n"
+    body += "structure ListenerFacts where\n"
+    keys = ["stopBiased", "closesTracker", "waitsTracker", "clientInputBeforeSpawn", "headerUnderDeadline", "listenUnderDeadline",
+            "singleDeadlineFromAccept", "shutdownAfterListen", "limiterBeforeConnection", "limiterOnEffectiveAddr",
+            "connAddr", "connSecret", "connMaxLen", "connExpiry", "connTimeout", "cfgSecret", "cfgTimeout", "cfgMaxLen", "cfgExpiry", "cfgLimiter", "cfgProxy"]
+    for k in keys:
+        body += f"  {k} : Bool\n"
+    body += "  deriving DecidableEq, Repr\n\n"
+    if lf is None:
+        body += "def listener : Option ListenerFacts := none\n"
+    else:
+        f, calls, lcalls = lf
+        body += f"/- Connection builder chain in Listener::handle: {calls}\n   Listener builder chain in passage::start: {lcalls} -/\n"
+        body += "def listener : Option ListenerFacts := some {\n" + ",\n".join(f"  {k} := {'true' if f[k] else 'false'}" for k in keys) + " }\n"
+    body += "\nend Passage.Extracted\n"
+    write_if_changed(os.path.join(out, "Listener.lean"), body)
+    print(f"extracted listener facts: {None if lf is None else {k: v for k, v in lf[0].items()}}")
     for n in notes:
         print(n)
 
